@@ -292,6 +292,12 @@ inductive Effect where
   | remove (p : RPath)
   deriving DecidableEq, Repr
 
+def Effect.path : Effect → RPath
+  | .mkdir p => p
+  | .create p => p
+  | .truncate p => p
+  | .remove p => p
+
 /-- `complete` flushes and forgets the destination; `error` / `interrupted` remove `inner.destination` -/
 def finish (fs : FS) (cwd : RPath) (o : OpenRes) : Outcome → FS × List Effect
   | .complete => (fs, [])
